@@ -38,12 +38,14 @@ inductive BuiltRsp : Response → Spec.RspMeaning → Prop
   | writeMultipleCoils (a q : UInt16) : BuiltRsp (.writeMultipleCoils a q) (.writeMultipleCoils a q)
   | writeMultipleRegisters (a q : UInt16) : BuiltRsp (.writeMultipleRegisters a q) (.writeMultipleRegisters a q)
   | custom (fc : FunctionCode) (data : Bytes) : BuiltRsp (.custom fc data) (.custom fc.value data)
+  | readExceptionStatus (s : UInt8) : BuiltRsp (.readExceptionStatus s) (.readExceptionStatus s)
 
 /-- the meanings whose wire form the response decoder reads back as the same kind: everything except a
-    *custom* response carrying one of the nine codes the decoder models as a dedicated kind (such bytes
-    are, correctly, decoded as that dedicated kind).  Any other code byte is in scope, including ≥ 0x80. -/
+    *custom* response carrying one of the ten codes the decoder models as a dedicated kind (the nine
+    request-side codes and 0x07, Read Exception Status; such bytes are, correctly, decoded as that dedicated
+    kind).  Any other code byte is in scope, including ≥ 0x80. -/
 def InScopeRsp : Spec.RspMeaning → Prop
-  | .custom c _ => c ∉ modelledReqCodes
+  | .custom c _ => c ∉ modelledRspCodes
   | _ => True
 
 /-! ### `padTo8` -/
@@ -185,13 +187,24 @@ theorem Response.decode_writeMultipleRegisters (a1 a2 v1 v2 : UInt8) (rest : Byt
     Response.decode (0x10 :: a1 :: a2 :: v1 :: v2 :: rest) = .ok (.writeMultipleRegisters (rd16 a1 a2) (rd16 v1 v2)) := by
   simp [Response.decode, idx, Rsp.fc_new_10, minResponsePduLen, read16]
 
-/-- a code byte that is none of the nine modelled response kinds — any other byte, including the
+theorem Rsp.fc_new_07 : FunctionCode.new 0x07 = .readExceptionStatus := by decide
+
+/-- Read Exception Status response: code and the status byte; anything after the status is ignored -/
+theorem Response.decode_readExceptionStatus (s : UInt8) (rest : Bytes) :
+    Response.decode (0x07 :: s :: rest) = .ok (.readExceptionStatus s) := by
+  simp [Response.decode, idx, Rsp.fc_new_07, minResponsePduLen]
+
+/-- … and the code byte alone is too short -/
+theorem Response.decode_readExceptionStatus_short : Response.decode [0x07] = .err .bufferSize := by
+  decide
+
+/-- a code byte that is none of the ten modelled response kinds — any other byte, including the other
     RTU-only codes and bytes ≥ 0x80 — is decoded by the catch-all as a custom response carrying
     that code and all remaining bytes -/
-theorem Response.decode_custom (c : UInt8) (hc : c ∉ modelledReqCodes) (d : Bytes) :
+theorem Response.decode_custom (c : UInt8) (hc : c ∉ modelledRspCodes) (d : Bytes) :
     Response.decode (c :: d) = .ok (.custom (FunctionCode.new c) d) := by
   have hv := C18.value_new c
-  simp only [modelledReqCodes, List.mem_cons, List.not_mem_nil, or_false, not_or] at hc
+  simp only [modelledRspCodes_eq, List.mem_cons, List.not_mem_nil, or_false, not_or] at hc
   cases hfc : FunctionCode.new c <;> rw [hfc] at hv <;>
     first
     | (exfalso; simp only [FunctionCode.value] at hv; simp [← hv] at hc; done)
@@ -277,7 +290,11 @@ theorem Response.decode_spec_writeMultipleRegisters (a q : UInt16) :
   simp only [Spec.rspBytes, Spec.word, List.cons_append, List.nil_append]
   rw [Response.decode_writeMultipleRegisters, Rsp.rd16_hi_lo, Rsp.rd16_hi_lo]
 
-theorem Response.decode_spec_custom (c : UInt8) (hc : c ∉ modelledReqCodes) (d : Bytes) :
+theorem Response.decode_spec_readExceptionStatus (s : UInt8) :
+    Response.decode (Spec.rspBytes (.readExceptionStatus s)) = .ok (.readExceptionStatus s) :=
+  Response.decode_readExceptionStatus s []
+
+theorem Response.decode_spec_custom (c : UInt8) (hc : c ∉ modelledRspCodes) (d : Bytes) :
     Response.decode (Spec.rspBytes (.custom c d)) = .ok (.custom (FunctionCode.new c) d) :=
   Response.decode_custom c hc d
 
@@ -305,6 +322,7 @@ theorem Response.decode_spec (m : Spec.RspMeaning) (hf : m.fits) (hs : InScopeRs
   | writeSingleRegister a w => exact ⟨_, Response.decode_spec_writeSingleRegister a w, rfl⟩
   | writeMultipleCoils a q => exact ⟨_, Response.decode_spec_writeMultipleCoils a q, rfl⟩
   | writeMultipleRegisters a q => exact ⟨_, Response.decode_spec_writeMultipleRegisters a q, rfl⟩
+  | readExceptionStatus s => exact ⟨_, Response.decode_spec_readExceptionStatus s, rfl⟩
   | custom c d =>
     exact ⟨_, Response.decode_spec_custom c hs d, by
       simp [Response.sem, C18.value_new, Spec.RspMeaning.padded]⟩
@@ -315,7 +333,7 @@ theorem Response.decode_spec (m : Spec.RspMeaning) (hf : m.fits) (hs : InScopeRs
 
 theorem Rsp.fromBools_ok {bs : List Bool} {t : Bytes} {c : Coils} (h : Coils.fromBools bs t = .ok c) :
     bs ≠ [] ∧ packedCoilsLen bs.length ≤ t.length ∧
-    c = ⟨Spec.packBits bs ++ t.drop (packedCoilsLen bs.length), bs.length⟩ := by
+    c = ⟨Spec.packBits bs, bs.length⟩ := by
   rw [C16.from_bools_total] at h
   split at h
   · simp at h
@@ -374,6 +392,7 @@ theorem BuiltRsp.encodable_iff {r : Response} {m : Spec.RspMeaning} (hb : BuiltR
   | writeMultipleCoils a q => simp [Response.Encodable, Spec.RspMeaning.fits]
   | writeMultipleRegisters a q => simp [Response.Encodable, Spec.RspMeaning.fits]
   | custom fc d => simp [Response.Encodable, Spec.RspMeaning.fits]
+  | readExceptionStatus s => simp [Response.Encodable, Spec.RspMeaning.fits]
 
 /-- the wire image is the specification's PDU of the meaning, for EVERY payload size — with the one
     exception of Write Single Coil (D12) -/
@@ -393,6 +412,7 @@ theorem BuiltRsp.image_eq {r : Response} {m : Spec.RspMeaning} (hb : BuiltRsp r 
   | writeMultipleCoils a q => rfl
   | writeMultipleRegisters a q => rfl
   | custom fc d => rfl
+  | readExceptionStatus s => rfl
 
 /-- `pdu_len` is defined for every built response (any payload size) and is the image's length -/
 theorem BuiltRsp.pduLen_eq {r : Response} {m : Spec.RspMeaning} (hb : BuiltRsp r m) :
@@ -400,14 +420,12 @@ theorem BuiltRsp.pduLen_eq {r : Response} {m : Spec.RspMeaning} (hb : BuiltRsp r
   cases hb with
   | readCoils h =>
     obtain ⟨_, hl, rfl⟩ := Rsp.fromBools_ok h
-    simp only [Response.pduLen, Response.image, Coils.packedLen, List.length_append, List.length_take,
-      packBits_length, List.length_drop, List.length_cons, List.length_nil]
-    congr 1; omega
+    simp only [Response.pduLen, Response.image, Coils.wire_packBits, Coils.packedLen, List.length_append,
+      packBits_length, List.length_cons, List.length_nil]
   | readDiscreteInputs h =>
     obtain ⟨_, hl, rfl⟩ := Rsp.fromBools_ok h
-    simp only [Response.pduLen, Response.image, Coils.packedLen, List.length_append, List.length_take,
-      packBits_length, List.length_drop, List.length_cons, List.length_nil]
-    congr 1; omega
+    simp only [Response.pduLen, Response.image, Coils.wire_packBits, Coils.packedLen, List.length_append,
+      packBits_length, List.length_cons, List.length_nil]
   | readHoldingRegisters h =>
     obtain ⟨_, rfl⟩ := Rsp.fromWords_ok h
     simp only [Response.pduLen, Response.image, Data.len, List.length_append, List.length_take,
@@ -428,6 +446,7 @@ theorem BuiltRsp.pduLen_eq {r : Response} {m : Spec.RspMeaning} (hb : BuiltRsp r
   | writeMultipleCoils a q => rfl
   | writeMultipleRegisters a q => rfl
   | custom fc d => simp [Response.pduLen, Response.image]; omega
+  | readExceptionStatus s => rfl
 
 theorem BuiltRsp.image_pos {r : Response} {m : Spec.RspMeaning} (hb : BuiltRsp r m) : 1 ≤ r.image.length := by
   cases hb <;> simp [Response.image]
@@ -521,6 +540,7 @@ theorem BuiltRsp.encode_oversize {r : Response} {m : Spec.RspMeaning} (hb : Buil
   | writeMultipleCoils a q => exact absurd trivial hf
   | writeMultipleRegisters a q => exact absurd trivial hf
   | custom fc d => exact absurd trivial hf
+  | readExceptionStatus s => exact absurd trivial hf
 
 /-- the encoder's whole outcome on a built response that fits: `BufferSize` when the buffer is shorter
     than the PDU, otherwise the image followed by the untouched rest of the buffer -/
@@ -608,10 +628,10 @@ theorem BuiltRsp.sem_eq {r : Response} {m : Spec.RspMeaning} (hb : BuiltRsp r m)
   cases hb with
   | readCoils h =>
     obtain ⟨_, _, rfl⟩ := Rsp.fromBools_ok h
-    simp [Response.sem, Coils.items, Coils.iter_packBits]
+    simp [Response.sem, Coils.items, Coils.iter_packBits_exact]
   | readDiscreteInputs h =>
     obtain ⟨_, _, rfl⟩ := Rsp.fromBools_ok h
-    simp [Response.sem, Coils.items, Coils.iter_packBits]
+    simp [Response.sem, Coils.items, Coils.iter_packBits_exact]
   | readHoldingRegisters h =>
     obtain ⟨_, rfl⟩ := Rsp.fromWords_ok h
     simp [Response.sem, Data.items_wordsBE]
@@ -626,6 +646,7 @@ theorem BuiltRsp.sem_eq {r : Response} {m : Spec.RspMeaning} (hb : BuiltRsp r m)
   | writeMultipleCoils a q => rfl
   | writeMultipleRegisters a q => rfl
   | custom fc d => rfl
+  | readExceptionStatus s => rfl
 
 /-- every meaning with a non-empty payload is the meaning of some built response (the constructors
     accept any payload length): `BuiltRsp` has instances for every `m` that `fits` — and beyond -/
@@ -649,6 +670,7 @@ theorem BuiltRsp.exists_of_nonempty (m : Spec.RspMeaning)
   | writeSingleRegister a w => exact ⟨_, .writeSingleRegister a w⟩
   | writeMultipleCoils a q => exact ⟨_, .writeMultipleCoils a q⟩
   | writeMultipleRegisters a q => exact ⟨_, .writeMultipleRegisters a q⟩
+  | readExceptionStatus s => exact ⟨_, .readExceptionStatus s⟩
   | custom c d => exact ⟨_, C18.value_custom c ▸ BuiltRsp.custom (.custom c) d⟩
 
 
